@@ -40,7 +40,13 @@ LEVEL_TEXT = ("Lean 4 theorems over an executable model of the whole legalizatio
               "partial_clauses); pre-fix witnesses by kernel evaluation. The model is tied to "
               "Circuit::legalize by a differential stream over generated circuits (all option mixes, directed full/overfull/"
               "trivial/macro-cover instances, parameters over the whole accepted range) and every normal return of the real "
-              "code is checked by an independent legality oracle")
+              "code is checked by an independent legality oracle. One case in three makes the measured call on a Circuit object with "
+              "a past (it computed its rows and/or legalized another state, then was brought to the case through the needed setters "
+              "only): pasts that differ in exactly one attribute class after a query-only past, so that each setter -- "
+              "setCellOrientation of a turned fixed macro, setCellX or setCellY alone, sizes, flags, setRows, setupRows, setSolution -- "
+              "is at times the sole restorer, and legalize / one edit / legalize again sequences (counters history_*); a fifth of the "
+              "random circuits take their rows from Circuit::setupRows and a quarter of all cases list their rows out of order "
+              "(reversed, shuffled, right to left within a y, top-down; counters rows_*), the model sorting as LegalizerBase does")
 LEVEL_NOTE = ("Trusted: Lean kernel (axioms propext/Classical.choice/Quot.sound only), the hand-written model's tie to the code "
               "(differential, bounded by the generator), tools/translate.py + clang-14 AST for Gen/GeomFns (shared geometry layer, proved equal "
               "to the hand-written one: geometry_layer_translated), unbounded Int for C++ int, f32 model of binary32, Freespace model of boost.")
